@@ -473,6 +473,56 @@ impl Scenario for C07 {
         }
     }
 
+    /// Entry points of the six contracts that this check does not drive by name (helpers exported
+    /// by accident, functions added later, the token's aborting asset-interface stubs): each is
+    /// called with nobody's authorisation and synthesised arguments; no principal's balance or
+    /// granted allowance may shrink, and no approved message may get consumed.
+    fn probe(&self, ctx: &Ctx, _m: &Model, out: &mut StepOut) {
+        let iw = &ctx.iw;
+        let w = &iw.w;
+        let env = &w.env;
+        let t1 = addr_from_sc(w, &iw.token_address_of(&ctx.t1_id));
+        let holders = [&ctx.a, &ctx.b, &ctx.s, &ctx.k];
+        let tokens = [&ctx.tok, &iw.gas_token, &iw.assets[0], &t1];
+        let assets = |w: &World| -> Vec<i128> {
+            let mut v = vec![];
+            for t in tokens {
+                for h in holders {
+                    v.push(iw.balance(t, h).unwrap_or(0));
+                }
+            }
+            v.push(w.query(&ctx.tok, "allowance", &[ctx.b.to_val(), ctx.a.to_val()]).and_then(|x| i128_of(&x)).unwrap_or(0));
+            v
+        };
+        let addresses = [ctx.a.clone(), ctx.b.clone(), ctx.tok.clone()];
+        let targets: [(&Address, &str, &[&str]); 6] = [
+            (&ctx.tok, "/repo/contracts/interchain-token/src", &axmc::inventory::TOKEN_KNOWN),
+            (&iw.gas, "/repo/contracts/axelar-gas-service/src", &axmc::inventory::GAS_KNOWN),
+            (&iw.gw, "/repo/contracts/axelar-gateway/src", &axmc::inventory::GATEWAY_KNOWN),
+            (&iw.its, "/repo/contracts/interchain-token-service/src", &axmc::inventory::ITS_KNOWN),
+            (&ctx.ops, "/repo/contracts/axelar-operators/src", &axmc::inventory::OPERATORS_KNOWN),
+            (&ctx.example, "/repo/contracts/example/src", &axmc::inventory::EXAMPLE_KNOWN),
+        ];
+        let calls = axmc::inventory::unknown_calls(w, "C07", &targets, &addresses, 32);
+        if calls.is_empty() {
+            return;
+        }
+        let before = assets(w);
+        for (contract, func, args) in calls {
+            let snap = w.snap();
+            let call = w.call(&contract, &func, &args, Auth::Nobody);
+            if call.ok {
+                let after = assets(w);
+                let shrunk = before.iter().zip(after.iter()).any(|(b, a)| a < b);
+                out.expect(!shrunk, "unknown-entry-point.debited-unauthorised", || {
+                    format!("function `{}` (not among the known entry points), called with nobody's authorisation, reduced a balance or allowance: {:?} -> {:?}", func, before, after)
+                });
+            }
+            w.restore(&snap);
+        }
+        let _ = env;
+    }
+
     fn must_succeed_kinds(&self) -> Vec<&'static str> {
         vec!["named-authorises", "named-is-calling-contract"]
     }
@@ -483,7 +533,7 @@ fn main() {
         let thorough = tier == "thorough";
         let mut o = Opts::new(tier, if thorough { 5 } else { 3 });
         o.min_depth = 2;
-        o.rule = "24 entry points plus ledger advancement (token approve / transfer / transfer_from / burn / burn_from / transfer_from and burn_from against a holder who granted no allowance (always refused) / mint_from / mint_from of a negative amount to a holder who authorised nothing (always refused) / a revocation (with a future and with a zero expiration), a shortening of the allowance and a re-approval of exactly one delegated operation's worth with a near expiration by the holder after which (or after whose expiry) the spender's delegated calls are refused; the holder's allowance is 3 and delegated calls move 2, so a second one exceeds it; gas pay_gas / add_gas; gateway call_contract / validate_message; ITS deploy_interchain_token (naming the counterparty as minter) / deploy_remote_interchain_token / deploy_remote_canonical_token / interchain_transfer of a service-deployed and of a canonical token; operators execute; example send) x 12 authorisation modes {the named address; the counterparty / recipient; the contracts' owner; a stranger; nobody; the named address for an altered argument; the named address for the root call but not the nested debit or gas payment; the named address for the same function with other arguments; the named address being the calling contract; a contract naming someone else; the call naming the called contract itself with nobody authorising; all amounts and gas zero with nobody authorising}, in every state of all histories of successful operations up to the bound; accepted only in the three legitimate modes, ledger bit-identical otherwise".into();
+        o.rule = "24 entry points plus ledger advancement (token approve / transfer / transfer_from / burn / burn_from / transfer_from and burn_from against a holder who granted no allowance (always refused) / mint_from / mint_from of a negative amount to a holder who authorised nothing (always refused) / a revocation (with a future and with a zero expiration), a shortening of the allowance and a re-approval of exactly one delegated operation's worth with a near expiration by the holder after which (or after whose expiry) the spender's delegated calls are refused; the holder's allowance is 3 and delegated calls move 2, so a second one exceeds it; gas pay_gas / add_gas; gateway call_contract / validate_message; ITS deploy_interchain_token (naming the counterparty as minter) / deploy_remote_interchain_token / deploy_remote_canonical_token / interchain_transfer of a service-deployed and of a canonical token; operators execute; example send) x 12 authorisation modes {the named address; the counterparty / recipient; the contracts' owner; a stranger; nobody; the named address for an altered argument; the named address for the root call but not the nested debit or gas payment; the named address for the same function with other arguments; the named address being the calling contract; a contract naming someone else; the call naming the called contract itself with nobody authorising; all amounts and gas zero with nobody authorising}, in every state of all histories of successful operations up to the bound; accepted only in the three legitimate modes, ledger bit-identical otherwise; in every state every exported function of the six contracts that the check does not drive by name (found by scanning the source tree) is called unauthorised with arguments built from its parameter types and must not reduce any principal's balance or allowance".into();
         (C07 { max_successes: if thorough { 4 } else { 2 } }, o)
     });
 }
